@@ -49,6 +49,18 @@ pub struct FullSync<'a, ItemType:          Debug + Send + Sync,
 }
 
 
+/// verification hooks: gives the external harness access to the components (to name their shared cells)
+#[cfg(feature = "verif")]
+impl<'a, ItemType:          Debug + Send + Sync,
+         OgreAllocatorType: BoundedOgreAllocator<ItemType> + 'a,
+         const BUFFER_SIZE: usize,
+         const MAX_STREAMS: usize>
+FullSync<'a, ItemType, OgreAllocatorType, BUFFER_SIZE, MAX_STREAMS> {
+    pub fn verif_parts(&self) -> (&StreamsManagerBase<MAX_STREAMS>, &FullSyncZeroCopy<ItemType, OgreAllocatorType, BUFFER_SIZE>) {
+        (&self.streams_manager, &self.channel)
+    }
+}
+
 impl<'a, ItemType:          Debug + Send + Sync,
          OgreAllocatorType: BoundedOgreAllocator<ItemType> + 'a + Send + Sync,
          const BUFFER_SIZE: usize,
